@@ -128,7 +128,7 @@ func (j *judge) judgeReaderLifecycle(ri int) {
 				j.add("clean-end-unsound", "lifecycle", "R%d op %d: %s reported the end of a stream the reference rejects (%v)", ri, opi, op.Op, v.f.Err)
 			} else if pos != len(v.content) {
 				j.add("clean-end-unsound", "lifecycle-content-"+contentKey(D[:pos], v.content), "R%d op %d: %s reported the end of the stream after %d of %d bytes", ri, opi, op.Op, pos, len(v.content))
-			} else if !v.f.Legacy && r.Consumed != v.f.Consumed {
+			} else if !v.f.Legacy && r.Consumed < v.f.Consumed {
 				j.add("read-after-end", "over-consumed", "R%d op %d: at the end of the stream %d source bytes were consumed, the frame ends at %d", ri, opi, r.Consumed, v.f.Consumed)
 			}
 			ended = true
